@@ -36,10 +36,18 @@ def plan(tier, seed):
         for be in ("numpy", "c", "jax"):
             specs.append({"klass": "zero_default_parameter:" + sh, "i": 1000 + 3 * j + ("numpy", "c", "jax").index(be), "shapes": [sh, sh], "backend": be, "delta": 1e-8, "zero_defaults": True})
             specs.append({"klass": "deprecated_alias:" + sh, "i": 1100 + 3 * j + ("numpy", "c", "jax").index(be), "shapes": [sh, sh], "backend": be, "delta": 0.5, "alias": "forward_generalized_rush_larsen"})
+    for j, e in enumerate(IDENTICAL_RATES):
+        for be in ("numpy", "c", "jax"):
+            # several states share one rate expression: each is linearised in its own state
+            text = "parameters(k=-0.5, tau=2.0, b=0.75)\nstates(x0=0.75, x1=1.25, x2=-0.5)\n\nw = 0.5 + x0 * x0 / 4\n" + "".join(f"dx{q}_dt = {e}\n" for q in range(3))
+            specs.append({"klass": "identical_rates", "i": 1200 + 3 * j + ("numpy", "c", "jax").index(be), "text": text, "backend": be, "delta": 1e-8})
     for s in specs:
         s["prop"] = ID
         s.setdefault("soft_timeout", 150)
     return specs
+
+
+IDENTICAL_RATES = ["k * x0 * x1 + 0.25", "-(x0 * x0) * x1 / tau + x2", "(x1 - x0) / tau - x2 * 0.125", "w * (1 - x0) - 0.3 * x1 * x2", "exp(-x0) * x1 - x0 * x2", "k * x0 + k * x1 * 2 + k * x2 * 3"]
 
 
 def k_values(delta):
